@@ -37,7 +37,8 @@ PID = 'C16'
 
 
 def case_direction(case):
-    stretching, cells, coe, lfc, use_dist = case
+    stretching, cells, coe, lfc, use_dist = case[:5]
+    with_vec = len(case) > 5 and case[5] == 'vector'
     E = shadow.load()
     c = set_ctx(Ctx(timeout_ms=60000))
     State.OBJECT_ALLOC = True
@@ -45,7 +46,8 @@ def case_direction(case):
     M = E.meshes
     grp = (f"origin_and_widths stretching={stretching} cell_numbers={cells} "
            f"center_on_edge={coe} lambda_from_center={lfc} "
-           f"{'distance' if use_dist else 'domain'}")
+           f"{'distance' if use_dist else 'domain'}" +
+           (" with a 3-node vector" if with_vec else ""))
     saved = [(M, n, getattr(M, n)) for n in ('skin_depth', 'cell_width',
                                              'wavelength', 'np')]
     had_float = hasattr(M, 'float')
@@ -56,6 +58,11 @@ def case_direction(case):
     for v in [sk, dm, mb, a, b]+wl:
         c.assume(B(v.t > 0))
     d0, d1 = cen-a, cen+b            # the survey domain contains the centre
+    if with_vec:
+        # a node vector around the centre (three nodes, strictly increasing)
+        u1, u2 = Q.var('u1'), Q.var('u2')
+        c.assume(B(z3.And(u1.t > 0, u2.t > 0)))
+        vec = [cen-u1, cen, cen+u2]
     M.skin_depth = lambda f, cond, *x, **k: np.array(
         [sk, sk, sk], dtype=object).view(symx.SymArray)
     M.cell_width = lambda s_, pps, lim: dm
@@ -77,6 +84,8 @@ def case_direction(case):
             kw['distance'] = [a, b]
         else:
             kw['domain'] = [d0, d1]
+        if with_vec:
+            kw['vector'] = np.array(vec, dtype=object).view(symx.SymArray)
         try:
             return M.origin_and_widths(1.0, [1.0], cen, **kw)
         except RuntimeError as e:
@@ -124,12 +133,28 @@ def case_direction(case):
                     symx.qt(nodes[-1]) >= cd1,
                 "neighbouring widths within the larger stretching factor":
                     z3.And(*[z3.And(p.t <= smax*q.t, q.t <= smax*p.t)
-                             for p, q in zip(hx[:-1], hx[1:])]),
+                             for p, q in zip(hx[:-1], hx[1:])
+                             # (two cells of the user's own vector: their
+                             # ratio is the user's choice)
+                             if not (with_vec and z3.simplify(
+                                 p.t-u1.t).eq(z3.RealVal(0)) and
+                                 z3.simplify(q.t-u2.t).eq(z3.RealVal(0)))]),
                 ("centre on a node" if coe else "centre on a cell centre"):
                     z3.Or(*([symx.qt(nd) == cen.t for nd in nodes] if coe
                             else [symx.qt(p_+q_) == 2*cen.t
                                   for p_, q_ in zip(nodes[:-1], nodes[1:])])),
             }
+            if with_vec:
+                # a vector overrides the centre clause; instead its nodes
+                # inside the survey domain must be nodes of the mesh
+                props = {k_: v_ for k_, v_ in props.items()
+                         if not k_.startswith('centre')}
+                props["vector nodes inside the domain are mesh nodes"] = \
+                    z3.And(*[z3.Implies(
+                        z3.And(symx.qt(v_) >= symx.qt(d0),
+                               symx.qt(v_) <= symx.qt(d1)),
+                        z3.Or(*[symx.qt(nd) == symx.qt(v_)
+                                for nd in nodes])) for v_ in vec])
             m = None
             if why is None:
                 for name, pr in props.items():
@@ -140,9 +165,12 @@ def case_direction(case):
             if why:
                 wit = None
                 if m is not None:
-                    wit = {k: float(symx.model_value(m, q)) for k, q in
-                           dict(center=cen, a=a, b=b, dmin=dm, wl0=wl[0],
-                                wl1=wl[1], max_buffer=mb).items()}
+                    wd = dict(center=cen, a=a, b=b, dmin=dm, wl0=wl[0],
+                              wl1=wl[1], max_buffer=mb)
+                    if with_vec:
+                        wd.update(u1=u1, u2=u2)
+                    wit = {k: float(symx.model_value(m, q))
+                           for k, q in wd.items()}
                 bad = (why, wit)
                 break
     except Inconclusive as e:
@@ -165,7 +193,8 @@ def case_direction(case):
                       key=f"automatic gridding: {why}",
                       cex=dict(kind='direction', stretching=list(stretching),
                                cells=list(cells), coe=coe, lfc=lfc,
-                               use_dist=use_dist, witness=wit, why=why)))
+                               use_dist=use_dist, with_vec=with_vec,
+                               witness=wit, why=why)))
     elif not any(o['verdict'] == 'unknown' for o in obs):
         obs.append(ob(
             f"{n['mesh']} mesh-returning paths ({n['err']} paths raise): "
@@ -398,6 +427,10 @@ def replay(cex):
         kw['distance'] = [w['a'], w['b']]
     else:
         kw['domain'] = dom
+    vecn = None
+    if cex.get('with_vec'):
+        vecn = np.array([cen-w['u1'], cen, cen+w['u2']])
+        kw['vector'] = vecn
     try:
         x0, hx = emg3d.meshes.origin_and_widths(f, props, cen, **kw)
     except RuntimeError as e:
@@ -425,7 +458,12 @@ def replay(cex):
     if np.any(r > smax*(1+1e-9)):
         msgs.append(f"neighbouring widths grow by {r.max():.6f} > {smax}")
     pts = nodes if cex['coe'] else (nodes[1:]+nodes[:-1])/2
-    if np.abs(pts-cen).min() > tol:
+    if vecn is not None:
+        for v_ in vecn:
+            if dom[0] <= v_ <= dom[1] and np.abs(nodes-v_).min() > tol:
+                msgs.append(f"vector node {v_:.6g} inside the domain is "
+                            f"not a node of the mesh")
+    elif np.abs(pts-cen).min() > tol:
         msgs.append("centre neither on a node nor on a cell centre as "
                     "requested")
     return bool(msgs), (f"real origin_and_widths(center={cen:.6g}, domain="
@@ -452,7 +490,8 @@ def main(tier):
                                                    False),
                  (S1, (4,), False, True, False), (S1, (4,), True, True,
                                                   True),
-                 ((1.001, 1.001), (4, 6), False, False, True)]
+                 ((1.001, 1.001), (4, 6), False, False, True),
+                 (S1, (4,), False, False, True, 'vector')]
     else:
         cases = [(s_, cn, coe, lfc, ud)
                  for s_, cn in ((S1, (4,)), ((1.0, 1.004), (4, 6)),
@@ -460,6 +499,8 @@ def main(tier):
                                 ((1.0, 1.002), (6, 8)))
                  for coe in (False, True) for lfc in (False, True)
                  for ud in (False, True)]
+        cases += [(S1, (4, 6), False, lfc, ud, 'vector')
+                  for lfc in (False, True) for ud in (False, True)]
     jobs = [('case_direction', x) for x in cases]
     jobs += [('case_seasurface', (True,)), ('case_seasurface', (False,)),
              ('case_cell_numbers', None)]
@@ -483,7 +524,8 @@ def main(tier):
     run.stubs = ["meshes.skin_depth / cell_width / wavelength -> symbolic "
                  "positive reals", "np.log10 of the info string -> 0 "
                  "(display precision)", "builtins.float -> symx.symfloat"]
-    run.outside = ["vector in origin_and_widths", "_seasurface paths that "
+    run.outside = ["vectors of more than three nodes", "_seasurface paths "
+                   "that "
                    "add cells (brentq root finding)", "realistic stretching "
                    "pairs "
                    "(up to 100x100 candidates) and cell-number lists",
